@@ -338,3 +338,144 @@ def run_intern_order(prog, tier, repo):
     res.floor('functions rendering the diagnostics of a compilation', n_render, 1)
     res.analysed['interning_functions'] = sorted(prog.bodies[i].name for i in interners)
     return [res]
+
+
+# ---------------------------------------------------------------------------------------------------------------------
+# SORT-KEY-LOSSY (C09 for the printer, C12 elsewhere). Entries of a HashMap arrive in hash order; `sorted_by_key` / `sort_by_key`
+# are stable, so two entries with equal keys stay in the order they arrived in. Where the key closure computes the key from the
+# *unique* part of the entry (the map key, the whole element), the sort is total exactly as long as the computation is injective.
+# The rule follows the closure's return value back to the element and fails when a function from the table of lossy
+# transformations (case folding, trimming, lengths, prefixes) lies on the way: two different map keys may then compare equal and
+# the output order of those two follows the per-process hash seed (an unstable `format --check`, diagnostics or emitted items that
+# swap between runs). Functions outside both tables are left undecided and listed in the evidence.
+
+LOSSY = ('to_lowercase', 'to_uppercase', 'to_ascii_lowercase', 'to_ascii_uppercase', 'make_ascii_lowercase', 'trim', 'trim_start',
+         'trim_end', 'trim_matches', 'trim_start_matches', 'trim_end_matches', 'len', 'count', 'is_empty', 'first', 'last', 'chars',
+         'bytes', 'split', 'split_once', 'rsplit', 'rsplit_once', 'starts_with', 'ends_with', 'contains', 'find', 'nth', 'get',
+         'hash', 'file_stem', 'file_name', 'extension', 'to_string_lossy', 'eq_ignore_ascii_case', 'abs', 'signum', 'min', 'max',
+         'strip_prefix', 'strip_suffix', 'truncate', 'take', 'skip', 'is_some', 'is_none', 'unwrap_or_default')
+FAITHFUL = ('pretty_print', 'as_str', 'clone', 'to_string', 'to_owned', 'deref', 'borrow', 'as_ref', 'into', 'from', 'to_vec',
+            'as_bytes', 'as_slice', 'into_boxed_str', 'into_string', 'encoded_for_test', 'encoded', 'into_iter', 'iter', 'collect',
+            'cloned', 'copied', 'join')
+
+
+def _key_chain(prog, kb):
+    """Trace the returned key of closure body `kb` back to its element parameter (_2). Returns (field path, [call names]) or None
+    when the value has several definitions / no derivation from the element."""
+    calls = []
+    cur = 0
+    path = ()
+    for _ in range(32):
+        r, p = root_local(kb, cur)
+        path = p + path
+        if r == 2:
+            return path, calls
+        sd = single_def(kb, r)
+        if sd is None:
+            return None
+        if sd[1] == 'term':
+            t = sd[2]
+            calls.append(((callee(t)[1] or callee_decl_name(t) or '?'), t[7]))
+            nxt = None
+            for o in t[3]:
+                if o[0] in ('c', 'm'):
+                    rr, _pp = root_local(kb, o[1].local)
+                    if rr == 2 or _derives(kb, o[1].local):
+                        nxt = o[1].local
+                        break
+            if nxt is None:
+                return None
+            cur = nxt
+            continue
+        rv = sd[2]
+        ops = [o for o in iter_operands_rvalue(rv) if o[0] in ('c', 'm')]
+        if len(ops) != 1:
+            return None
+        path = tuple(e for e in ops[0][1].proj if e[0] in ('f', 't', 'v')) + path
+        cur = ops[0][1].local
+    return None
+
+
+def callee_decl_name(t):
+    from ..facts import callee_decl
+    return callee_decl(t)[1]
+
+
+def _derives(kb, local, depth=0):
+    """Does `local` derive (through copies, references and calls) from the element parameter _2?"""
+    if depth > 12:
+        return False
+    r, _ = root_local(kb, local)
+    if r == 2:
+        return True
+    sd = single_def(kb, r)
+    if sd is None:
+        return False
+    if sd[1] == 'term':
+        return any(o[0] in ('c', 'm') and _derives(kb, o[1].local, depth + 1) for o in sd[2][3])
+    return any(o[0] in ('c', 'm') and _derives(kb, o[1].local, depth + 1) for o in iter_operands_rvalue(sd[2]))
+
+
+def run_sort_key_lossy(prog, tier, repo, crates=None, floor=1):
+    res = RuleResult('SORT-KEY-LOSSY', 'the key of a stable keyed sort over the entries of a hash collection is not computed from the '
+                     'entry\'s unique part by a lossy transformation (ties would be left in hash order, which changes from run to run)')
+    n = 0
+    unclassified = set()
+    for b in sorted(prog.bodies.values(), key=lambda x: x.name):
+        if not b.crate.startswith('samlang') or '::tests' in b.name or (crates and b.crate not in crates):
+            continue
+        for bl in b.blocks:
+            t = bl.term
+            if bl.cleanup or t[0] != 'call' or len(t[3]) < 2:
+                continue
+            short = (callee(t)[1] or '').split('::')[-1]
+            if short not in OrderTaint.KEYED or t[3][0][0] not in ('c', 'm') or t[3][1][0] not in ('c', 'm'):
+                continue
+            recv = strip_refs(b.locals[t[3][0][1].local])
+            if 'std::collections::hash_map::' not in recv.s and 'std::collections::hash_set::' not in recv.s:
+                continue
+            ct = strip_refs(b.locals[t[3][1][1].local])
+            if ct.k != 'closure' or ct.id not in prog.bodies:
+                continue
+            kb = prog.bodies[ct.id]
+            n += 1
+            k = sum(1 for i in res.instances if i.key.startswith(f'sort:{b.name}:{short}#')) + 1
+            key = f'sort:{b.name}:{short}#{k}'
+            ch = _key_chain(prog, kb)
+            if ch is None:
+                res.ok(key, b.loc(t[7]), 'key not derived from the element by a single chain of calls: not decided')
+                continue
+            path, calls = ch
+            fields = [e for e in path if e[0] in ('f', 't')]
+            unique_part = (not fields) or (fields[0][0] == 't' and fields[0][1] == 0) or \
+                (fields[0][0] == 'f' and str(fields[0][4]) == '0' and 'hash_map' in recv.s)
+            lossy = [(nm, ln) for nm, ln in calls if nm.split('::')[-1] in LOSSY]
+            for nm, _ln in calls:
+                if nm.split('::')[-1] not in LOSSY and nm.split('::')[-1] not in FAITHFUL:
+                    unclassified.add(nm)
+            if unique_part and lossy:
+                res.violation(key, kb.loc(lossy[0][1]), f'{b.name} orders the entries of a hash collection with `{short}`, and the key '
+                              f'closure ({kb.loc()}) computes the key from the entry\'s unique part through '
+                              f'`{lossy[0][0].split("::")[-1]}`, which maps different values to the same key: entries whose keys '
+                              f'collide keep their hash order, so the result differs between runs of the same input')
+            elif unique_part:
+                res.ok(key, b.loc(t[7]), 'key = the entry\'s unique part' + (' through ' + ', '.join(c[0].split('::')[-1] for c in calls)
+                                                                            if calls else ''))
+            else:
+                res.ok(key, b.loc(t[7]), 'key is another part of the entry (its uniqueness is a data invariant): not decided')
+    res.floor('keyed sorts over hash-collection entries', n, floor)
+    res.analysed['unclassified_key_functions'] = sorted(unclassified)
+    return [res]
+
+
+def run_sort_key_lossy_printer(prog, tier, repo):
+    out = run_sort_key_lossy(prog, tier, repo, crates=('samlang_printer',), floor=1)
+    out[0].clause = 'C09: ' + out[0].clause
+    return out
+
+
+def run_sort_key_lossy_compiler(prog, tier, repo):
+    out = run_sort_key_lossy(prog, tier, repo, crates=('samlang_checker', 'samlang_compiler', 'samlang_errors', 'samlang_parser',
+                                                       'samlang_optimization'), floor=4)
+    out[0].clause = 'C12: ' + out[0].clause
+    return out
